@@ -259,15 +259,20 @@ func innerServersVerified(c *an.Ctx, v *ssa.Function) {
 	for _, b := range v.Blocks {
 		for _, in := range b.Instrs {
 			call, ok := in.(*ssa.Call)
-			if !ok || !strings.HasSuffix(an.CalleeName(&call.Call), "glow.Verify") {
+			if !ok {
 				continue
 			}
-			kt := fi.Term(call.Call.Args[0])
+			// a direct glow.Verify call, or a call of a straight-line helper whose value is one (term-level inlining)
+			vt := fi.Term(call)
+			if (vt.K != an.KPure && vt.K != an.KCall) || !strings.HasSuffix(vt.Callee(), "glow.Verify") || len(vt.A) != 3 {
+				continue
+			}
+			kt := vt.A[0]
 			if kt.K != an.KField || kt.S != "NewGCA" {
 				continue
 			}
-			dt := fi.Term(call.Call.Args[1])
-			st := fi.Term(call.Call.Args[2])
+			dt := vt.A[1]
+			st := vt.A[2]
 			if (dt.K != an.KPure && dt.K != an.KCall) || !strings.HasSuffix(dt.Callee(), ").SigningBytes") {
 				continue
 			}
